@@ -78,7 +78,8 @@ def run(ctx):
     ctx.note("fault_placements_not_realised", r["faults_unrealised"])
     ctx.note("per_fault_point", r["per_fault_point"])
     ctx.note("child_wall_s", round(r["child_wall_ms"] / 1000.0, 1))
-    ctx.note("exhaustive", {"<=1 fault placements": True, "2 fault placements": want == "all"})
+    ctx.note("exhaustive", want == "all")
+    ctx.note("exhaustive_parts", {"<=1 fault placements": True, "2 fault placements": want == "all"})
     ctx.note("rule", "2 migrating files of 3 size classes (5 / 20 000 / 120 000 rows: one or many copy buffers) x 4 query universes x "
              "every placement of <=1 fault (crash before/inside/after the copy, before/after the source delete, before the "
              "scan, in reconciliation; failure of read, write, UpdateTier(+rollback), source delete, Exists) and %s placements "
